@@ -307,3 +307,6 @@ ben('C11', P, "        if np.isclose(point, self.start, rtol=0, atol=1e-6):\n   
 # ---------------------------------------------------------------- C12 R12.6 (multi-parent scenarios)
 brk('C12', B, "                        if pair.bez1 == otherPair.bez1 or \\\n                                pair.bez2 == otherPair.bez2 or \\\n                                pair.bez1 == otherPair.bez2 or \\\n                                pair.bez2 == otherPair.bez1:", "                        if pair.t1 == otherPair.t1 or pair.t2 == otherPair.t2 or pair.t1 == otherPair.t2 or pair.t2 == otherPair.t1:", 'redundancy decided by mid parameters across curves')
 brk('C12', B, "                    if point not in approx_point_set:\n                        approx_point_set.append(point)", "                    if not approx_point_set:\n                        approx_point_set.append(point)", 'only the first crossing is ever reported')
+
+# ---------------------------------------------------------------- C10 wrappers forward falsy arguments
+brk('C10', P, "        return scale(self, sx=sx, sy=sy, origin=origin)\n\n\nclass QuadraticBezier", "        return scale(self, sx=sx, sy=sy or sx, origin=origin)\n\n\nclass QuadraticBezier", 'Line.scaled replaces sy = 0 by sx')
